@@ -54,7 +54,7 @@ pub fn load(text: &str) -> Result<(TypeEnv, Option<candid::types::Type>), String
     Ok((env, actor))
 }
 /// structural equality of two checked programs: same definition names, each definition equal, actors equal
-fn same_program(a: &(TypeEnv, Option<candid::types::Type>), b: &(TypeEnv, Option<candid::types::Type>)) -> Result<(), String> {
+pub fn same_program(a: &(TypeEnv, Option<candid::types::Type>), b: &(TypeEnv, Option<candid::types::Type>)) -> Result<(), String> {
     let (e1, a1) = a; let (e2, a2) = b;
     let k1: Vec<&String> = e1.0.keys().collect(); let k2: Vec<&String> = e2.0.keys().collect();
     if k1 != k2 { return Err(format!("definition names differ: {:?} vs {:?}", k1, k2)); }
@@ -100,6 +100,7 @@ pub fn eval(op: &str, a: &[&str]) -> Option<String> {
             if let Some(t) = act { if te.as_service(&t).is_err() { return Some("FAIL accepted actor is not a service".into()); } }
             "ok".into()
         }
+        "p.c12.export" => return crate::native::dispatch(a[0], op, a),
         "p.c12.roundtrip" => {
             let env = env_from_sx(a[0]); let actor = actor_from(a[1]);
             let text = program(&env, &actor);
@@ -183,7 +184,15 @@ pub fn gen_program(r: &mut Rng, with_actor: bool) -> (Env, Option<T>) {
     let k = r.range(0, 5) as usize;
     let e0 = gen_env(r, k, &cfg);
     // rename definitions to odd identifiers
-    let mut pool: Vec<&str> = DEF_NAMES.to_vec();
+    // sometimes the names come from ONE OR TWO FAMILIES  w, w_, w__, w___  of a word some target language reserves:
+    // whatever a generator appends or strips to get out of the way of the reserved word must keep the family apart
+    const FAMILY_WORDS: &[&str] = &["class", "return", "IDL", "async", "let", "fn", "enum", "Self", "self", "await", "function", "var", "loop", "object", "actor", "label", "Principal"];
+    let fam: Vec<String> = if r.coin(1, 3) {
+        let mut v = vec![];
+        for _ in 0..r.range(1, 3) { let w: &str = *r.pick(FAMILY_WORDS); for u in 0..4 { let n = format!("{}{}", w, "_".repeat(u)); if !v.contains(&n) { v.push(n); } } }
+        v.push("A".into()); v.push("B".into()); v
+    } else { vec![] };
+    let mut pool: Vec<&str> = if fam.is_empty() { DEF_NAMES.to_vec() } else { fam.iter().map(|s| s.as_str()).collect() };
     let mut map: HashMap<String, String> = HashMap::new();
     for (n, _) in &e0 { let i = r.below(pool.len() as u64) as usize; map.insert(n.clone(), pool.remove(i).to_string()); }
     let f = |s: &str| map.get(s).cloned().unwrap_or(s.to_string());
@@ -352,6 +361,8 @@ pub fn generate(prop: &str, thorough: bool, r: &mut Rng, em: &mut Emit) {
                 em.stat(if actor.is_some() { "program.with-actor" } else { "program.no-actor" });
                 em.case_nt("p.c12.roundtrip", &[env_sx(&env), actor_sx(&actor)], !env.is_empty() || actor.is_some());
             }
+            // "the same holds for type environments exported from Rust types": every type of the native corpus
+            for n in crate::native::NAMES { em.stat("export.rust-type"); em.case_nt("p.c12.export", &[n.to_string()], true); }
         }
         _ => { // C13
             let entries = ["prog", "type", "types", "initargs", "value", "args", "test"];
